@@ -29,7 +29,7 @@ pub struct C15 {
 }
 
 fn v(clause: &str, detail: String) -> Vec<StepViolation> {
-    vec![StepViolation { clause: clause.to_string(), detail, shape: None }]
+    vec![StepViolation { clause: clause.to_string(), detail, shape: None, soft: false }]
 }
 
 fn impl_view(w: &W) -> BTreeMap<u64, (usize, usize, Vec<(String, bool)>)> {
